@@ -115,7 +115,8 @@ func buildAlphabet() []*opDef {
 			nP(inPkg("lisp"), setq("a", nI(14)), nCall("export", nQS("a")))), tier: 1},
 		{Name: "load:lisp:export-a", Class: "language-package-export", form: nCall("load-string",
 			nP(inPkg("lisp"), nCall("export", nQS("a"))))},
-		{Name: "set:lisp:a=15", Class: "set-qualified-language", form: setq("lisp:a", nI(15)), tier: 1},
+		// (quick tier too: a binding added to the language package AFTER a package exists is not visible unqualified there)
+		{Name: "set:lisp:a=15", Class: "set-qualified-language", form: setq("lisp:a", nI(15))},
 
 		// --- references
 		{Name: "ref:a", Class: "ref-unqualified", form: nS("a")},
